@@ -376,7 +376,7 @@ fn check_node(w: &mut World, s: &S, p: [f64; 3], cx: &mut Cx, depth: usize) -> C
     cx.ev.count(&format!("checked_{name}"));
     let tol = |scale: f64, lip: f64| 2e-4 * (1.0 + pm + scale) * lip.max(1.0);
     // T(s)(p) == s(q)
-    let mut relate = |w: &mut World, inner: &S, q: [f64; 3], scale: f64, cx: &mut Cx| -> CheckResult {
+    let relate = |w: &mut World, inner: &S, q: [f64; 3], scale: f64, cx: &mut Cx| -> CheckResult {
         let Some(want) = w.lib(inner, q) else { return Ok(()) };
         let t = tol(scale, inner.lip());
         if !(got.is_finite() && want.is_finite()) {
